@@ -45,4 +45,9 @@ PROPS = {
         bounded=["bounded.c12_regions"],
         trusted=["the reading of a region word in specs/c12_regions.py::selects (bits 31:24 / 23:18 block base, 17:16 level, 15:0 sub-block select), transcribed from the SC&MP documentation"],
     ),
+    "C05": dict(
+        level="proof",
+        specs=["specs.c05_allocate"],
+        bounded=["bounded.c05_allocate"],
+    ),
 }
